@@ -1171,3 +1171,100 @@ theorem C13.op_derivativeBy_is_derivative {K : Type} [Field K] [DecidableEq K] (
 example : (⟨.grad, .backward, .constant, (3 : ℚ), false⟩ : Op ℚ).derivativeBy derivSpec
     = ⟨.grad, .backward, .constant, 0, false⟩ := by
   simp [Op.derivativeBy, derivSpec]
+
+
+/-! ### ROUND 4: from plain sums to the inner product of the space
+
+`innerN` is the executed model of `DiscretizedSpace.inner` on `uniform_discr` (driver op
+`inner`, compared exactly with `x.inner(y)`, real and complex, with and without
+`nodes_on_bdry`, stream `inner/…`): `Σ weight·x·conj(y)`, weight = product of the cell sizes
+of the point, `axisWeight bdry` halving the first and last cell of an axis for
+`nodes_on_bdry=True`.  Until round 3 the step "transpose for plain sums ⇒ adjoint for the space
+inner product" was an argument in prose. -/
+
+/-- On a uniformly weighted space (`uniform_discr` without `nodes_on_bdry`, any cell sides `ω`,
+any ndim `d`, real or complex: `σ` = conjugation fixing the real `dx`) the operator
+`PartialDerivative.adjoint` returns IS the adjoint for the space's inner product:
+`⟨∂ₐF, G⟩ = ⟨F, −∂ₐ'G⟩` with `innerN` the executed inner product. -/
+theorem C13.pdN_adjoint_inner {K : Type} [Field K] (σ : K →+* K) (m : Method) (p : Pad)
+    (shape : Nat → Nat) (d a : Nat) (ha : a < d)
+    (h : sizeCheck guards (tbl m p) p (shape a) = none)
+    (h' : sizeCheck guards (tbl (adjMethod m) (adjPad p)) (adjPad p) (shape a) = none)
+    (dx : K) (hdx : σ dx = dx) (ω : Nat → K) (F G : IdxN → K) :
+    innerN (axisWeight false shape ω) shape d σ (fdAxisN den (tbl m p) shape a 0 dx F) G
+      = - innerN (axisWeight false shape ω) shape d σ F
+          (fdAxisN den (tbl (adjMethod m) (adjPad p)) shape a 0 dx G) := by
+  have hn : 2 ≤ shape a := le_trans (tbl _ _).two_le_need (sizeCheck_none h')
+  rw [innerN_uniform, innerN_uniform, ← mul_neg]
+  congr 1
+  have key := C13.pdN_adjoint m p shape d a ha h h' dx F (fun y => σ (G y))
+  have e : ∀ x, fdAxisN den (tbl (adjMethod m) (adjPad p)) shape a 0 dx (fun y => σ (G y)) x
+      = σ (fdAxisN den (tbl (adjMethod m) (adjPad p)) shape a 0 dx G x) := fun x =>
+    C13.fd_map σ _ (shape a) hn dx hdx (fun k => G (x.set a k)) (x a)
+  simp only [e] at key
+  rw [← key]
+  unfold boxSumN
+  congr 1
+  funext x
+  exact mul_comm _ _
+
+example (F G : IdxN → ℚ) :
+    innerN (axisWeight false (fun _ => 3) (fun a => (a : ℚ) + 1 / 2)) (fun _ => 3) 4
+        (RingHom.id ℚ) (fdAxisN den (tbl .backward .order1Adj) (fun _ => 3) 2 0 (5 / 2) F) G
+      = - innerN (axisWeight false (fun _ => 3) (fun a => (a : ℚ) + 1 / 2)) (fun _ => 3) 4
+        (RingHom.id ℚ) F (fdAxisN den (tbl .forward .order1) (fun _ => 3) 2 0 (5 / 2) G) :=
+  C13.pdN_adjoint_inner (RingHom.id ℚ) .backward .order1Adj _ 4 2 (by omega) (by decide)
+    (by decide) _ rfl _ F G
+
+/-- `Gradient.adjoint = −Divergence(…)` for the inner products of the spaces (domain
+`uniform_discr` without `nodes_on_bdry`, range its unweighted power space, whose inner product
+is the sum of the component inner products), every ndim. -/
+theorem C13.gradN_divN_adjoint_inner {K : Type} [Field K] (σ : K →+* K) (m : Method) (p : Pad)
+    (shape : Nat → Nat) (d : Nat)
+    (h : ∀ a < d, sizeCheck guards (tbl m p) p (shape a) = none)
+    (h' : ∀ a < d, sizeCheck guards (tbl (adjMethod m) (adjPad p)) (adjPad p) (shape a) = none)
+    (dx : Nat → K) (hdx : ∀ a < d, σ (dx a) = dx a) (ω : Nat → K) (F : IdxN → K)
+    (H : Nat → IdxN → K) :
+    ∑ a ∈ range d, innerN (axisWeight false shape ω) shape d σ
+        (gradientN den (tbl m p) shape 0 dx F a) (H a)
+      = - innerN (axisWeight false shape ω) shape d σ F
+          (divergenceN den (tbl (adjMethod m) (adjPad p)) shape d 0 dx H) := by
+  have e : ∀ a ∈ range d, innerN (axisWeight false shape ω) shape d σ
+        (gradientN den (tbl m p) shape 0 dx F a) (H a)
+      = - innerN (axisWeight false shape ω) shape d σ F
+          (fdAxisN den (tbl (adjMethod m) (adjPad p)) shape a 0 (dx a) (H a)) := fun a ha =>
+    C13.pdN_adjoint_inner σ m p shape d a (mem_range.1 ha) (h a (mem_range.1 ha))
+      (h' a (mem_range.1 ha)) (dx a) (hdx a (mem_range.1 ha)) ω F (H a)
+  rw [sum_congr rfl e, sum_neg_distrib]
+  congr 1
+  simp only [innerN_uniform, C13.divergenceN_eq_sum, map_sum, mul_sum, boxSumN_sum]
+
+example (F : IdxN → ℚ) (H : Nat → IdxN → ℚ) :
+    ∑ a ∈ range 3, innerN (axisWeight false (fun _ => 2) (fun _ => (1 / 2 : ℚ))) (fun _ => 2) 3
+        (RingHom.id ℚ) (gradientN den (tbl .forward .symmetric) (fun _ => 2) 0 (fun _ => 1 / 2)
+          F a) (H a)
+      = - innerN (axisWeight false (fun _ => 2) (fun _ => (1 / 2 : ℚ))) (fun _ => 2) 3
+        (RingHom.id ℚ) F (divergenceN den (tbl .backward .symmetricAdj) (fun _ => 2) 3 0
+          (fun _ => 1 / 2) H) :=
+  C13.gradN_divN_adjoint_inner (RingHom.id ℚ) .forward .symmetric _ 3 (fun _ _ => by decide)
+    (fun _ _ => by decide) _ (fun _ _ => rfl) _ F H
+
+/-- Counterexample (open finding F60 of C05, here as a theorem about the executed model): on
+`uniform_discr(0, 3, 4, nodes_on_bdry=True)` (cell sizes 1/2, 1, 1, 1/2) with
+`PartialDerivative(method='central', pad_mode='constant')`, `⟨A e₀, e₁⟩ = −1/2` but
+`⟨e₀, A* e₁⟩ = −1/4` for the operator `A* = −PartialDerivative(_ADJ_METHOD, _ADJ_PADDING)`
+the code returns: the returned operator is the transpose, NOT the adjoint for that space's
+inner product.  `pdN_adjoint_inner` cannot be extended to `axisWeight true`. -/
+theorem C13.pd_adjoint_inner_fails_nodes_on_bdry :
+    innerN (axisWeight true (fun _ => 4) (fun _ => (1 : ℚ))) (fun _ => 4) 1 id
+        (fdAxisN den (tbl .central .constant) (fun _ => 4) 0 0 1
+          (fun x => if x 0 = 0 then 1 else 0))
+        (fun x => if x 0 = 1 then 1 else 0) = -1 / 2 ∧
+    - innerN (axisWeight true (fun _ => 4) (fun _ => (1 : ℚ))) (fun _ => 4) 1 id
+        (fun x => if x 0 = 0 then 1 else 0)
+        (fdAxisN den (tbl (adjMethod .central) (adjPad .constant)) (fun _ => 4) 0 0 1
+          (fun x => if x 0 = 1 then 1 else 0)) = -1 / 4 := by
+  constructor <;>
+  · simp [innerN, sumAxesL, cellWeight, axisWeight, fdAxisN, fd, fdNum, interior, assign, tbl,
+      adjMethod, adjPad, evalTerms, evalTerm, den, IdxN.set, List.range_succ, Corner.pos]
+    try norm_num
